@@ -1002,6 +1002,10 @@ std::string sqf::parser::preprocessor::impl_default::instance::parse_ppinstructi
     }
     else
     {
+        if (!allow_write())
+        { // Directives in an inactive section have no effect, unknown ones included
+            return "\n";
+        }
         m_errflag = true;
         log(err::UnknownInstruction(fileinfo.to_diag_info(), inst));
         return "";
